@@ -803,3 +803,16 @@ def labelled_sector_mps(rng, qd, L, qtot, modes=None, kind='complex'):
         mask = np.add.outer(np.add.outer(qd, qD[i]), -qD[i + 1])
         psi.A[i] = np.where(mask == 0, A, 0)
     return psi, modes
+
+
+def relabelled_operator(rng, H):
+    """A deep copy of the MPO H in a DIFFERENT but equally valid labelling: the sector rule of an operator tensor only involves the difference of
+    its two physical labels, so a constant shift of H.qd describes the same operator; a charge-diagonal operator (all bond labels zero) may also carry
+    all-zero physical labels. Algorithms acting on a state must take the physical labels from the STATE."""
+    import copy
+    H2 = copy.deepcopy(H)
+    if all(not np.any(q) for q in H2.qD) and rng.random() < 0.5:
+        H2.qd = np.zeros_like(H2.qd)
+    else:
+        H2.qd = np.asarray(H2.qd) + int(rng.choice([-7, -1, 1, 2, 5, 1000]))
+    return H2
